@@ -30,9 +30,10 @@ def acceptorCookieOld (node acceptorOpt : Nat) : Nat := acceptCookie node (accep
 /-- connect(): what Start and Join are called with -/
 def routeCookie (node routeOpt : Nat) : Nat := if routeOpt = 0 then node else routeOpt
 
-/- the acceptor over time: node/network.go accept() builds its gen.HandshakeOptions ONCE, before the
-   accept loop (`hopts := gen.HandshakeOptions{Cookie: a.cookie, …}`), and node/acceptor.go SetCookie
-   only assigns the field — so the loop never sees a later SetCookie. -/
+/- the acceptor over time: node/acceptor.go SetCookie assigns the field; node/network.go accept() either reads the
+   fields for every incoming connection (`pc`, regenerated as Gen.Acceptor.optionsReadPerConnection) or — the code
+   before the repair of D10b — builds its gen.HandshakeOptions ONCE, before the accept loop, so that the loop never
+   sees a later SetCookie. -/
 
 structure AccState where
   field : Nat      -- acceptor.cookie (what Acceptor.Cookie() reports)
@@ -46,7 +47,7 @@ def startAcc (node opt : Nat) : AccState := ⟨acceptorField node opt, acceptorF
 def setCookie (s : AccState) (c : Nat) : AccState := { s with field := c }
 
 /-- the cookie the next incoming handshake is checked against -/
-def handshakeCookie (node : Nat) (s : AccState) : Nat := acceptCookie node s.hopts
+def handshakeCookie (pc : Bool) (node : Nat) (s : AccState) : Nat := acceptCookie node (if pc then s.field else s.hopts)
 
 /-- what the documentation of gen.Acceptor promises: the cookie set last (the node's when that is empty) -/
 def wantedCookie (node : Nat) (s : AccState) : Nat := acceptCookie node s.field
